@@ -87,18 +87,18 @@ SPEC = {
         "sort.SliceStable's contract (result sorted by less, a permutation, equal elements keep their order) is trusted, not its algorithm: Base/SortStable.v proves that the contract determines the result (C16_stable_sort_unique), the model uses the insertion sort proved to satisfy it",
         "the projection of the laid-out Go box tree to Draw/Stacking.v's abstract `box` (go/cmd/c16/main.go `project`: Go type -> kind, style predicates position/z-index/float/opacity/transform/overflow, AbsolutePlaceholder unwrapped, which of a box's events can reach the backend) and the translation of the backend trace to events (fills / texts named by the unique colours the generator gives every element, opacity groups by their unique opacity value, transforms by their unique translation, overflow clips by the padding-box rectangle of the clipping box)",
         "/repo hook html/document/verif_export_c16.go (Page.VerifPageBox)",
-        "the recording backend go/vlib/render (OnNewStack nesting, NewGroup/DrawWithOpacity pairing)",
+        "the recording backend go/vlib/render (OnNewStack nesting, NewGroup/DrawWithOpacity pairing) wrapped by go/cmd/c16/tagged.go: every call is attributed to the canvas it was made on, and the compared observable is what reaches the PAGE (events made on a group that is never composited by DrawWithOpacity, directly or through enclosing groups, are dropped as lost)",
+        "which transform lists are not invertible is decided by the harness from the computed style (translate / scale / matrix functions with small integer linear parts: a factor with determinant 0), not read back from /repo's matrix code",
     ],
     "not_modelled": [
         "table internals: drawTable's layered backgrounds and collapsed borders (tables are excluded from generated documents; a tree containing a table / cell / row box is skipped, code 2)",
         "what a background / border / text / outline paints (colours, geometry, images, border styles): an event is the identity of the box only",
         "draw.go 216-243: viewport overflow propagated to the root element and the `clip` property of absolutely positioned boxes",
-        "draw.go 253-258: a box whose transform matrix is singular paints nothing (not generated)",
         "replaced content and list markers are in the model (Content events) but not in the generated documents",
         "page margin boxes other than @top-center; multi-column rules",
     ],
     "codes": {
-        "1": "the sequence of fills / texts / Push-Pop the backend received differs from the model's paint(from_page ...) on the same laid-out tree",
+        "1": "the sequence of fills / texts / Push-Pop that reached the page (events painted on a group that is never composited are lost) differs from the model's paint(from_page ...) on the same laid-out tree",
         "2": "tree contains table boxes (not modelled), skipped",
         "3": "the model panics (drawInlineLevel 'unexpected box') but the implementation did not",
         "4": "the implementation panicked while drawing; the model does not",
@@ -109,13 +109,13 @@ SPEC = {
         "9": "implementation = model = Appendix E with the implementation's stacking contexts, but the order of fills/texts differs from Appendix E with CSS's own stacking contexts in a way NOT confined to the sub-trees of overflow != visible boxes (or without any such box: contradicts C16_overflow_only_difference)",
     },
     "theorems_for_kind": {
-        "gen": "C16_paint_page_spec / C16_paint_order_spec / C16_stable_partition_sort",
+        "gen": "C16_paint_page_spec / C16_paint_order_spec / C16_stable_partition_sort / C16_singular_confined",
         "corpus": "C16_paint_page_spec / C16_paint_order_spec / C16_stable_partition_sort",
     },
-    "rule": "SplitMix64-seeded generator of documents: nests (depth <= 7, 3-40 elements) of div / span / inline-block / inline-flex / flex / floats with position (relative, absolute, fixed), z-index drawn from multisets with ties, negatives, 0 and auto (also on non-positioned boxes), opacity, transform, overflow, outlines, blocks inside inlines, negative margins (overlap), z-index on the root element, a page margin box; every element has unique background / border / text / outline colours; one case per rendered page; regression corpus corpus/C16/*.html first; non-trivial = at least two boxes forming stacking contexts; distinct by Coq term",
+    "rule": "SplitMix64-seeded generator of documents: nests (depth <= 7, 3-40 elements) of div / span / inline-block / inline-flex / flex / floats with position (relative, absolute, fixed), z-index drawn from multisets with ties, negatives, 0 and auto (also on non-positioned boxes), opacity, transform (translations, and non-invertible matrices scale(0) / scale(1,0) / matrix(1,2,2,4,0,0) ... alone, with opacity < 1 (the hidden state opacity+scale(0)) and with overflow, on boxes with content and with boxes painted after them), overflow, outlines, blocks inside inlines, negative margins (overlap), z-index on the root element, a page margin box; every element has unique background / border / text / outline colours; one case per rendered page; regression corpus corpus/C16/*.html first; non-trivial = at least two boxes forming stacking contexts; distinct by Coq term",
 }
 MANIFEST = {
-    "text": "Coq theorems over an executable port of NewStackingContext / NewStackingContextFromBox / drawStackingContext: for every well-shaped box tree paint(from_box b) = CSS 2.1 Appendix E (C16_paint_order_spec, C16_paint_page_spec: own background+border, negative-z contexts ascending with ties in tree order, in-flow blocks, floats atomically, inline content with inline-blocks atomic, positioned z-auto/0 and opacity/transform contexts in tree order, positive-z ascending, outlines; opacity/transform bracket the whole sub-tree, overflow clip its content), the three context lists are the spec's classes in (z, tree) order for ANY function meeting sort.SliceStable's contract (C16_stable_partition_sort, C16_stable_sort_unique), no panic, background immediately before border, Push/Pop balanced; the model is compared on every run with the event sequence /repo's real pipeline sends to a recording backend for generated documents with uniquely coloured boxes",
+    "text": "Coq theorems over an executable port of NewStackingContext / NewStackingContextFromBox / drawStackingContext: for every well-shaped box tree paint(from_box b) = CSS 2.1 Appendix E (C16_paint_order_spec, C16_paint_page_spec: own background+border, negative-z contexts ascending with ties in tree order, in-flow blocks, floats atomically, inline content with inline-blocks atomic, positioned z-auto/0 and opacity/transform contexts in tree order, positive-z ascending, outlines; opacity/transform bracket the whole sub-tree, overflow clip its content; a box with a non-invertible transform paints nothing of its sub-tree and changes nothing else: C16_singular_confined), the three context lists are the spec's classes in (z, tree) order for ANY function meeting sort.SliceStable's contract (C16_stable_partition_sort, C16_stable_sort_unique), no panic, background immediately before border, Push/Pop balanced; the model is compared on every run with the event sequence /repo's real pipeline sends to a recording backend for generated documents with uniquely coloured boxes",
     "note": "Trusted: Coq kernel (vm_compute), sort.SliceStable contract, Go harness projection (box tree -> abstract tree, trace -> events), hook html/document/verif_export_c16.go. Partial: overflow != visible is taken to form a stacking context as the implementation does (deviation from CSS reported as known finding C16/overflow-forms-stacking-context, code 6); every_box_painted_once / per_box_order (beyond bg-before-border) / exact bracket contents are stated (Definition ..._statement) and proved only in part; tables not modelled.",
     "technique": "Coq proof over executable model + vm_compute correspondence with the Go implementation",
 }
